@@ -17,7 +17,7 @@ from __future__ import annotations
 import copy
 from typing import Any
 
-from detsim import env, gen, rng
+from detsim import env, gen, minimize, rng
 from detsim.observe import (exc_token, observe_globals, observe_meta, observe_sync,
                             observe_track)
 from detsim.runner import Discard
@@ -301,5 +301,4 @@ def shrink(plan: dict[str, Any]):
         if len(ops) > 1:
             for i in range(len(ops)):
                 yield {**plan, "clients": clients[:ci] + [ops[:i] + ops[i + 1:]] + clients[ci + 1:]}
-    if plan["schedule"].get("mode") != "sequential":
-        yield {**plan, "schedule": {"mode": "sequential", "seed": 0, "p_boundary": 0.0}}
+    yield from minimize.shrink_schedule(plan)
